@@ -17,7 +17,7 @@ CASE_TIMEOUT = 1500
 RULE = (
     "systems of 1-4 components (every archetype + small molecules), system mass from 0.5x to ~60x the mean molecule mass, specified by absolute masses "
     "or n-1 percentages + one absolute mass; System.generator is iterated with a spying Generator (through the property's underlying function): every "
-    "yielded molecule must be fully generated (also probed with components that are generable but can never be completed: missing suffix, lone token with a descriptor -- they must be refused, alone or among ordinary components) and pass the residue audit (C05/C06 oracle) against exactly one declared component; with the library's own "
+    "yielded molecule must be fully generated; two iterations of one system object advanced alternately must each obey the stop rule (also probed with components that are generable but can never be completed: missing suffix, lone token with a descriptor -- they must be refused, alone or among ordinary components) and pass the residue audit (C05/C06 oracle) against exactly one declared component; with the library's own "
     "left-to-right partial sums s_k the sequence must end at the first k with s_k >= M; a non-generable system must refuse both iteration and "
     "System.generate; System.generate must return a fully generated member. Non-trivial: >= 2 components and >= 5 molecules yielded; distinct by system text."
 )
@@ -277,6 +277,37 @@ def run_case(case):
             viol.append({"cls": "c13.not-a-member-of-exactly-one-component", "msg": f"molecule {k} ({g.smiles}) is an instance of components {owners}; audits: {why[:3]}", "text": text})
         else:
             member_counts[owners[0]] += 1
+    # two iterations of the SAME system alive at once, advanced alternately: each must obey the stop rule on its own
+    if len(seq) <= 400:
+        try:
+            with time_limit(600):
+                its = [iter(run_generator(S, W.spy(case["seed"] + 7))), iter(run_generator(S, W.spy(case["seed"] + 8)))]
+                seqs, alive = [[], []], [True, True]
+                while any(alive):
+                    for k in (0, 1):
+                        if alive[k]:
+                            try:
+                                seqs[k].append(next(its[k]).weight)
+                            except StopIteration:
+                                alive[k] = False
+                            if len(seqs[k]) > 5000:
+                                alive[k] = False
+            cnt["interleaved_iterations"] += 2
+            for k in (0, 1):
+                acc, stop_at = 0.0, None
+                for j, w in enumerate(seqs[k]):
+                    acc += w
+                    if acc >= sysM and stop_at is None:
+                        stop_at = j
+                if stop_at is None:
+                    viol.append({"cls": "c13.stops-early.interleaved-iterations", "msg": f"two iterations of one system advanced alternately: iteration {k} ended after {len(seqs[k])} molecules with accumulated mass {acc!r} < system mass {sysM!r}", "text": text})
+                elif stop_at != len(seqs[k]) - 1:
+                    viol.append({"cls": "c13.stops-late.interleaved-iterations", "msg": f"two iterations of one system advanced alternately: iteration {k} reached the system mass at molecule {stop_at + 1} but yielded {len(seqs[k])}", "text": text})
+        except StepTimeout:
+            cnt["watchdog"] += 1
+        except Exception as exc:
+            if all(clos) and not any(e["k"] == "draw_exc" for e in trace.events):
+                viol.append({"cls": "c13.generator-raises", "msg": f"interleaved iteration of well-posed System({text!r}) raised {type(exc).__name__}: {exc}"[:400], "text": text})
     # single generation
     try:
         g1 = S.generate(rng=W.spy(case["seed"] + 1))
